@@ -181,7 +181,7 @@ func (s *Session) NextLCPIdentifier() uint8 {
 // SessionManager manages PPPoE sessions
 type SessionManager struct {
 	sessions     map[uint16]*Session
-	macToSession map[string]uint16 // MAC string -> session ID
+	macToSession map[string][]uint16 // MAC string -> session IDs, oldest first (a client may hold several: PADR retransmission, reconnect without PADT)
 	nextID       uint16
 	mu           sync.RWMutex
 }
@@ -190,7 +190,7 @@ type SessionManager struct {
 func NewSessionManager() *SessionManager {
 	return &SessionManager{
 		sessions:     make(map[uint16]*Session),
-		macToSession: make(map[string]uint16),
+		macToSession: make(map[string][]uint16),
 		nextID:       1,
 	}
 }
@@ -216,7 +216,8 @@ func (m *SessionManager) CreateSession(clientMAC, serverMAC net.HardwareAddr) (*
 		return nil, err
 	}
 	m.sessions[m.nextID] = session
-	m.macToSession[clientMAC.String()] = m.nextID
+	key := clientMAC.String()
+	m.macToSession[key] = append(m.macToSession[key], m.nextID)
 	m.nextID++
 
 	return session, nil
@@ -233,10 +234,29 @@ func (m *SessionManager) GetSession(id uint16) *Session {
 func (m *SessionManager) GetSessionByMAC(mac net.HardwareAddr) *Session {
 	m.mu.RLock()
 	defer m.mu.RUnlock()
-	if id, ok := m.macToSession[mac.String()]; ok {
-		return m.sessions[id]
+	// Newest session of this client
+	if ids := m.macToSession[mac.String()]; len(ids) > 0 {
+		return m.sessions[ids[len(ids)-1]]
 	}
 	return nil
+}
+
+// unindexMAC removes one session ID from the MAC index, keeping the client's
+// other sessions reachable. Caller holds m.mu.
+func (m *SessionManager) unindexMAC(mac net.HardwareAddr, id uint16) {
+	key := mac.String()
+	ids := m.macToSession[key]
+	for i, v := range ids {
+		if v == id {
+			ids = append(ids[:i], ids[i+1:]...)
+			break
+		}
+	}
+	if len(ids) == 0 {
+		delete(m.macToSession, key)
+	} else {
+		m.macToSession[key] = ids
+	}
 }
 
 // RemoveSession removes a session
@@ -245,7 +265,7 @@ func (m *SessionManager) RemoveSession(id uint16) {
 	defer m.mu.Unlock()
 
 	if session, ok := m.sessions[id]; ok {
-		delete(m.macToSession, session.ClientMAC.String())
+		m.unindexMAC(session.ClientMAC, id)
 		delete(m.sessions, id)
 	}
 }
@@ -283,7 +303,7 @@ func (m *SessionManager) CleanupExpired(timeout time.Duration) int {
 		session.mu.RUnlock()
 
 		if inactive {
-			delete(m.macToSession, session.ClientMAC.String())
+			m.unindexMAC(session.ClientMAC, id)
 			delete(m.sessions, id)
 			removed++
 		}
